@@ -359,6 +359,20 @@ func runC14(c *Ctx) {
 			}
 		}
 	}
+	if quick {
+		// quick: the option that opens the menu WITHOUT inserting a candidate, for the interrupt clause
+		for _, mode := range []string{"emacs", "vi-insert"} {
+			for ti := range tables {
+				for _, b := range []string{"fo", "x fo y"} {
+					for back := 0; back <= 2 && back <= len(b); back += 2 {
+						for _, ks := range [][]int{{11}, {0, 11}, {2, 11}, {11, 0}} {
+							cases = append(cases, c14Case{buf: b, back: back, table: ti, keys: ks, mode: mode, opt: "set menu-complete-display-prefix on\n"})
+						}
+					}
+				}
+			}
+		}
+	}
 	// the same completions when the Shell has inserted a candidate before (earlier on the line, or in
 	// an earlier call): TAB alone and TAB + one key
 	for pi, pre := range c14PreludeNames {
